@@ -1289,16 +1289,43 @@ func (w *World) mapKeyAlwaysPresent(m ssa.Value, k int64) (bool, string) {
 	if init == nil || !okAll {
 		return false, ""
 	}
+	// inside the initialising function the table may be assembled in a local map that is stored into the field
+	// on every path to the return
+	isTab := func(v ssa.Value) bool {
+		if isFld(v) {
+			return true
+		}
+		mm, ok := v.(*ssa.MakeMap)
+		if !ok || mm.Parent() != init {
+			return false
+		}
+		for _, ref := range *mm.Referrers() {
+			if st, ok := ref.(*ssa.Store); ok && st.Val == ssa.Value(mm) {
+				if f2, ok := st.Addr.(*ssa.FieldAddr); ok && fieldVar(f2) == fld {
+					return mustPass(init, nil, isReturn, func(i ssa.Instruction) bool { return i == ssa.Instruction(st) }) == nil
+				}
+			}
+		}
+		return false
+	}
 	for _, ret := range returnsOf(init) {
 		// paths to the return that neither find k nor store k
 		hit := reach(init, nil, func(i ssa.Instruction) bool { return i == ssa.Instruction(ret) }, func(i ssa.Instruction) bool {
 			mu, ok := i.(*ssa.MapUpdate)
-			if !ok || !isFld(mu.Map) {
+			if !ok || !isTab(mu.Map) {
 				return false
 			}
 			kk, isK := constInt(mu.Key)
 			return isK && kk == k && !isNilConst(mu.Value)
 		}, func(a, b *ssa.BasicBlock) bool {
+			// table[k] != nil
+			if x, op, y, ok := edgeFact(a, b); ok && op == token.NEQ && isNilConst(y) {
+				if lk, isLk := x.(*ssa.Lookup); isLk && !lk.CommaOk && isTab(lk.X) {
+					if kk, isK := constInt(lk.Index); isK && kk == k {
+						return true
+					}
+				}
+			}
 			v, truth, ok := boolEdge(a, b)
 			if !ok || !truth {
 				return false
@@ -1308,7 +1335,7 @@ func (w *World) mapKeyAlwaysPresent(m ssa.Value, k int64) (bool, string) {
 				return false
 			}
 			lk, isLk := ex.Tuple.(*ssa.Lookup)
-			if !isLk || !isFld(lk.X) {
+			if !isLk || !isTab(lk.X) {
 				return false
 			}
 			kk, isK := constInt(lk.Index)
